@@ -387,11 +387,19 @@ pub fn drive_rates(s: &mut Session, rng: &mut Rng, thorough: bool) {
     }
     for fs in rates {
         s.start(fs);
-        let t = *rng.pick(&[0.0f32, 1e-9, 1.0 / fs as f32, 2.0 / fs as f32, 1.99 / fs as f32, 3.0 / fs as f32, 10.0, 0.01]);
+        let t = *rng.pick(&[0.0f32, 1e-9, 1.0 / fs as f32, 2.0 / fs as f32, 1.99 / fs as f32, 3.0 / fs as f32, 10.0, 0.01, 0.3, 1.0]);
         s.set_time(t);
         s.process(1.0);
         s.process(1.0);
-        s.set_time(0.0);
+        // back to the fastest setting (0, or a time below two samples) after a slower one: the new step must
+        // be settled within 8 samples at EVERY sample rate (a conversion of the bound that rounds the wrong way
+        // at some rates must not leave the old setting in place)
+        let fast = *rng.pick(&[0.0f32, 0.0, 1.0 / fs as f32, 1.9 / fs as f32]);
+        s.set_time(fast);
+        // the input is held across the change, so the rest of the way is a step the specification times
+        for _ in 0..10 {
+            s.process(1.0);
+        }
         s.process(-1.0);
     }
 }
